@@ -345,8 +345,20 @@ func (group *Group) delRtspPubSession(session *rtsp.PubSession) {
 func (group *Group) delPullSession(session base.IObject) {
 	Log.Debugf("[%s] [%s] del PullSession from group.", group.UniqueKey, session.UniqueKey())
 
+	// 只有当离开的session就是当前输入流时，才清理输入流相关的状态；
+	// 否则（比如该pull还没拉到流就被其他推流抢先成为了输入流），只复位pull自身的状态
+	isIn := (group.pullProxy.rtmpSession != nil && session.UniqueKey() == group.pullProxy.rtmpSession.UniqueKey()) ||
+		(group.pullProxy.rtspSession != nil && session.UniqueKey() == group.pullProxy.rtspSession.UniqueKey())
+	if group.hasPullSession() && !isIn {
+		Log.Warnf("[%s] del pull session but not match. del session=%s, group session=%s",
+			group.UniqueKey, session.UniqueKey(), group.pullSessionUniqueKey())
+		return
+	}
+
 	group.resetRelayPullSession()
-	group.delIn()
+	if isIn {
+		group.delIn()
+	}
 }
 
 // ---------------------------------------------------------------------------------------------------------------------
